@@ -1119,7 +1119,7 @@ theorem aux_ordP_of_bool {p q : Prop} {bp bq : Bool} (hp : p ↔ bp = true) (hq 
   unfold ordP ordOf
   cases bp <;> cases bq <;> simp_all
 
-theorem aux_lookup_of_mem {X : Type} (m : List (κ × X)) (nd : (keys m).Nodup) (k : κ) (v : X)
+theorem aux_lookup_of_mem_nodup {X : Type} (m : List (κ × X)) (nd : (keys m).Nodup) (k : κ) (v : X)
     (h : (k, v) ∈ m) : lookup m k = some v := by
   induction m with
   | nil => cases h
@@ -1134,7 +1134,7 @@ theorem aux_lookup_of_mem {X : Type} (m : List (κ × X)) (nd : (keys m).Nodup) 
       simp only [this, if_false]
       exact ih nd.2 h
 
-theorem aux_lookup_mem {X : Type} (m : List (κ × X)) (k : κ) (v : X) (h : lookup m k = some v) : (k, v) ∈ m := by
+theorem aux_lookup_some_mem {X : Type} (m : List (κ × X)) (k : κ) (v : X) (h : lookup m k = some v) : (k, v) ∈ m := by
   induction m with
   | nil => simp [aux_lookup_nil] at h
   | cons kv m ih =>
@@ -1168,14 +1168,14 @@ theorem aux_keyCmp_spec (spec : CmpSpec c absV P) (a b : TMap κ V)
   cases ha : lookup a.map k with
   | some x =>
     cases hb : lookup b.map k with
-    | some y => simp only [spec.cmp_abs x y (pa _ (aux_lookup_mem _ _ _ ha)) (pb _ (aux_lookup_mem _ _ _ hb))]
+    | some y => simp only [spec.cmp_abs x y (pa _ (aux_lookup_some_mem _ _ _ ha)) (pb _ (aux_lookup_some_mem _ _ _ hb))]
     | none =>
       have hx : absV x ≠ ⊥ := by
         rcases hk with ⟨v, hm, hbv, _, _⟩ | ⟨v, hm, _, _, _⟩
-        · have := aux_lookup_of_mem _ nda k v hm
+        · have := aux_lookup_of_mem_nodup _ nda k v hm
           rw [ha] at this; injection this with e; subst e
           intro h; rw [(spec.isBot_iff x).mpr h] at hbv; cases hbv
-        · have := aux_lookup_of_mem _ ndb k v hm
+        · have := aux_lookup_of_mem_nodup _ ndb k v hm
           rw [hb] at this; cases this
       simp only [ordP, le_bot_iff, hx, bot_le, if_false, if_true]
   | none =>
@@ -1183,17 +1183,17 @@ theorem aux_keyCmp_spec (spec : CmpSpec c absV P) (a b : TMap κ V)
     | some y =>
       have hy : absV y ≠ ⊥ := by
         rcases hk with ⟨v, hm, _, _, _⟩ | ⟨v, hm, hbv, _, _⟩
-        · have := aux_lookup_of_mem _ nda k v hm
+        · have := aux_lookup_of_mem_nodup _ nda k v hm
           rw [ha] at this; cases this
-        · have := aux_lookup_of_mem _ ndb k v hm
+        · have := aux_lookup_of_mem_nodup _ ndb k v hm
           rw [hb] at this; injection this with e; subst e
           intro h; rw [(spec.isBot_iff y).mpr h] at hbv; cases hbv
       simp only [ordP, le_bot_iff, hy, bot_le, if_false, if_true]
     | none =>
       exfalso
       rcases hk with ⟨v, hm, _, _, _⟩ | ⟨v, hm, _, _, _⟩
-      · have := aux_lookup_of_mem _ nda k v hm; rw [ha] at this; cases this
-      · have := aux_lookup_of_mem _ ndb k v hm; rw [hb] at this; cases this
+      · have := aux_lookup_of_mem_nodup _ nda k v hm; rw [ha] at this; cases this
+      · have := aux_lookup_of_mem_nodup _ ndb k v hm; rw [hb] at this; cases this
 
 /-- outside the loop's keys and the tombstones both values are bottom -/
 theorem aux_valAt_bot_of_not_live (spec : CmpSpec c absV P) (m : List (κ × V)) (t1 t2 : List κ) (k : κ)
@@ -1202,7 +1202,7 @@ theorem aux_valAt_bot_of_not_live (spec : CmpSpec c absV P) (m : List (κ × V))
   cases hl : lookup m k with
   | none => rfl
   | some v =>
-    have hm := aux_lookup_mem m k v hl
+    have hm := aux_lookup_some_mem m k v hl
     cases hb : c.isBot v with
     | true => exact (spec.isBot_iff v).mp hb
     | false => exact absurd ((aux_mem_liveKeys c t1 t2 m k).mpr ⟨v, hm, hb, h1, h2⟩) hk
@@ -1387,10 +1387,10 @@ theorem eq_iff (spec : CmpSpec c absV P) (es : EqSpec c absV P) (a b : TMap κ V
           unfold valAt
           cases ha : lookup a.map k with
           | some x =>
-            have hxm := aux_lookup_mem _ _ _ ha
+            have hxm := aux_lookup_some_mem _ _ _ ha
             cases hb : lookup b.map k with
             | some y =>
-              have hym := aux_lookup_mem _ _ _ hb
+              have hym := aux_lookup_some_mem _ _ _ hb
               by_cases hbx : c.isBot x = true
               · by_cases hby : c.isBot y = true
                 · simp only [(spec.isBot_iff x).mp hbx, (spec.isBot_iff y).mp hby]
@@ -1408,7 +1408,7 @@ theorem eq_iff (spec : CmpSpec c absV P) (es : EqSpec c absV P) (a b : TMap κ V
           | none =>
             cases hb : lookup b.map k with
             | some y =>
-              have hym := aux_lookup_mem _ _ _ hb
+              have hym := aux_lookup_some_mem _ _ _ hb
               by_cases hby : c.isBot y = true
               · simp only [(spec.isBot_iff y).mp hby]
               · have := h k (Or.inr ((memNb b.map k).mpr ⟨y, hym, by simpa using hby⟩))
@@ -1429,21 +1429,21 @@ theorem eq_iff (spec : CmpSpec c absV P) (es : EqSpec c absV P) (a b : TMap κ V
     unfold valAt at hvk
     cases ha : lookup a.map k with
     | some x =>
-      have hxm := aux_lookup_mem _ _ _ ha
+      have hxm := aux_lookup_some_mem _ _ _ ha
       cases hb : lookup b.map k with
       | some y =>
         simp only [ha, hb] at hvk
-        exact (es x y (pa _ hxm) (pb _ (aux_lookup_mem _ _ _ hb))).mpr hvk
+        exact (es x y (pa _ hxm) (pb _ (aux_lookup_some_mem _ _ _ hb))).mpr hvk
       | none =>
         exfalso
         simp only [ha, hb] at hvk
         rcases hk with hk | hk
         · obtain ⟨v, hm, hbv⟩ := (memNb a.map k).mp hk
-          have := aux_lookup_of_mem _ nda k v hm
+          have := aux_lookup_of_mem_nodup _ nda k v hm
           rw [ha] at this; injection this with e; subst e
           rw [(spec.isBot_iff x).mpr hvk] at hbv; cases hbv
         · obtain ⟨v, hm, _⟩ := (memNb b.map k).mp hk
-          have := aux_lookup_of_mem _ ndb k v hm
+          have := aux_lookup_of_mem_nodup _ ndb k v hm
           rw [hb] at this; cases this
     | none =>
       cases hb : lookup b.map k with
@@ -1452,10 +1452,10 @@ theorem eq_iff (spec : CmpSpec c absV P) (es : EqSpec c absV P) (a b : TMap κ V
         simp only [ha, hb] at hvk
         rcases hk with hk | hk
         · obtain ⟨v, hm, _⟩ := (memNb a.map k).mp hk
-          have := aux_lookup_of_mem _ nda k v hm
+          have := aux_lookup_of_mem_nodup _ nda k v hm
           rw [ha] at this; cases this
         · obtain ⟨v, hm, hbv⟩ := (memNb b.map k).mp hk
-          have := aux_lookup_of_mem _ ndb k v hm
+          have := aux_lookup_of_mem_nodup _ ndb k v hm
           rw [hb] at this; injection this with e; subst e
           rw [(spec.isBot_iff y).mpr hvk.symm] at hbv; cases hbv
       | none => rfl
